@@ -35,32 +35,41 @@ class ClassTable:
         return self.repo.is_subclass(a, b) if a in self.repo.classes else (a == b)
 
     def ground_facts(self):
+        if getattr(self, "_gf", None) is not None and self._gf_n == len(self.const):
+            return self._gf
         out = [z3.Distinct(*self.const.values(), self.NoneType, self.Other)]
         out.append(T.cls_of(T.NONE) == self.NoneType)
         out.append(T.cls_of(T.QA_INVALID) == self.Other)
-        out.append(T.QA_INVALID != T.NONE)
+        out.append(z3.Distinct(T.QA_INVALID, T.NONE, T.PY_TRUE, T.PY_FALSE))
+        out.append(T.cls_of(T.PY_TRUE) == self.Other)
+        out.append(T.cls_of(T.PY_FALSE) == self.Other)
+        # the subclass relation on the known class constants is the repository's class table
+        names = list(self.const)
+        for a in names:
+            for b in names:
+                out.append(T.sub(self.const[a], self.const[b]) == z3.BoolVal(self.table(a, b)))
+        for k in (self.NoneType, self.Other):
+            for b in names:
+                out.append(z3.Not(T.sub(k, self.const[b])))
+        self._gf, self._gf_n = out, len(self.const)
         return out
 
     def axioms_for(self, c):
-        """instances of the class-hierarchy axioms for the class term c"""
-        out = [T.sub(c, c)]
-        kn = self.known(c)
-        names = [n for n in self.const if n in self.repo.classes]
-        if kn is not None or c.eq(self.NoneType) or c.eq(self.Other):
+        """instances of the class-hierarchy axioms for a class term c that is not a known constant (open world below
+        every repository class); exact-class facts (cls(x) == K) need none: congruence + ground_facts decide them"""
+        cache = self.__dict__.setdefault("_axcache", {})
+        hit = cache.get(c.get_id())
+        if hit is not None:
+            return hit[1]
+        out = []
+        if self.known(c) is None and not c.eq(self.NoneType) and not c.eq(self.Other):
+            names = [n for n in self.const if n in self.repo.classes]
             for n in names:
-                out.append(T.sub(c, self.const[n]) == z3.BoolVal(self.table(kn, n) if kn else False))
-            return out
-        for n in names:
-            K = self.const[n]
-            for b in self.repo.classes[n].bases:
-                if b in self.const:
-                    out.append(z3.Implies(T.sub(c, K), T.sub(c, self.const[b])))       # transitivity through the table
-            # exact-class tests: c == K decides every sub(c, .)
-            for n2 in names:
-                out.append(z3.Implies(c == K, T.sub(c, self.const[n2]) == z3.BoolVal(self.table(n, n2))))
-        for a, b in DISJOINT:
-            out.append(z3.Not(z3.And(T.sub(c, self.const[a]), T.sub(c, self.const[b]))))
-        for k in (self.NoneType, self.Other):
-            for n in names:
-                out.append(z3.Implies(c == k, z3.Not(T.sub(c, self.const[n]))))
+                K = self.const[n]
+                for b in self.repo.classes[n].bases:
+                    if b in self.const:
+                        out.append(z3.Implies(T.sub(c, K), T.sub(c, self.const[b])))
+            for a, b in DISJOINT:
+                out.append(z3.Not(z3.And(T.sub(c, self.const[a]), T.sub(c, self.const[b]))))
+        cache[c.get_id()] = (c, out)
         return out
